@@ -4,9 +4,19 @@ Workload: 1-3 script files whose 'life_<ctx>' service defines, redefines and del
 run time (default name, explicit name, two names in one decorator, two decorators, supports_response
 none/optional/only); default names collide between contexts (ownership); ops define / redefine / delete /
 edit+reload / unload / setup; calls with generated data after every op and, non-blocking, right before an op;
-plus outgoing calls from a script to a recording service through every call form.
+plus outgoing calls from a script to a recording service through every call form; some of them carry ordinary data
+fields that merely share the NAME of a call option (context / blocking / return_response) without having its type.
 
-Oracle: a reference model of declared names, owners and latest generations.
+Definitions in progress: 'define_racing' issues a definition without waiting for it (non-blocking service call) and,
+a seeded 0-25 ms later, does something that stops or supersedes it: the script is edited and reloaded, the integration
+is unloaded, the slot is deleted, or the slot is defined once more.  cfg["svc_params_delay_ms"] (sim/world.py) makes
+the refresh of the service descriptions inside the start-up of a @service a real suspension point (legal: Home
+Assistant loads descriptions through the executor), so the stop can land between "name registered" and "start-up
+finished".
+
+Oracle: a reference model of declared names, owners and latest generations.  Concurrent definitions/deletions of one
+slot are put in the order in which the script reported them done (marks 'life'), a definition whose context was
+reloaded/unloaded meanwhile is not declared by a loaded context any more, whenever it finishes.
 """
 
 from __future__ import annotations
@@ -21,14 +31,23 @@ PROPERTY = "C12"
 LEVEL = "exploration"
 RULE = (
     "seeded generation of <=18 lifecycle ops (define/redefine in 6 declaration forms, delete, reload, unload, setup) over "
-    "2 slots x 1-3 contexts, service calls with generated data after every op and in flight during ops, and outgoing "
-    "calls in 4 call forms; distinct = scenario digest; non-trivial = a service name changed hands between generations"
+    "2 slots x 1-3 contexts, service calls with generated data after every op and in flight during ops, definitions "
+    "still in progress (0-25 ms old, start-up suspended 0/2/8 ms in the service-description refresh) when their script "
+    "is reloaded / the integration unloaded / the slot deleted or defined again, and outgoing calls in 4 call forms, "
+    "optionally with data fields named like a call option but of another type; distinct = scenario digest; "
+    "non-trivial = a service name changed hands between generations"
 )
 ASSUMPTIONS = [
     "a call that is in flight while its service is redefined may run either generation (exactly once)",
     "when a context fails to take a name owned by another context, what happens to the other names of the same "
     "function is don't-care; the owner's registration must be unaffected",
-    "blocking/return_response/context are only generated with their documented types (bool / Context)",
+    "blocking/return_response/context are call options only with their documented types (bool / Context); a keyword "
+    "of that name with a value of any other type (str, int, float, None, list) is an ordinary service data field and "
+    "must be delivered like every other given keyword parameter ('exactly the given keyword parameters')",
+    "a definition and a deletion/second definition of the same slot that overlap in time take effect in the order in "
+    "which the script finished them (the statement following the def/del ran); a definition that is still in "
+    "progress when its context is reloaded or unloaded belongs to no loaded context when it finishes",
+    "the undocumented 'limit' option of the entity-method call form is not generated",
 ]
 TIERS = {
     "quick": {"runs": 450, "chunk": 15},
@@ -36,11 +55,21 @@ TIERS = {
 }
 REACH_PROBES = ["name_changed_hands", "foreign_takeover_attempt", "call_in_flight_during_redefinition", "alias_form",
                 "two_decorators_form", "response_returned", "deleted_then_called", "reload_dropped_runtime_definitions",
-                "outgoing_entity_method", "outgoing_return_response", "two_calls_of_one_service_overlap"]
+                "outgoing_entity_method", "outgoing_return_response", "two_calls_of_one_service_overlap",
+                "outgoing_option_named_data_field", "definition_in_progress_when_stopped",
+                "name_registered_by_definition_in_progress", "definition_in_progress_when_redefined_or_deleted",
+                "slow_service_description_load"]
 SHRINK_LISTS = [["ops"]]
 
 CTXS = ["ca", "cb", "cc"]
 FORMS = ["default", "explicit", "two_names", "two_decorators", "optional", "only"]
+RACE_THEN = ["reload_ctx", "reload_ctx", "unload", "unload", "delete", "define"]
+# values for a data field that is merely NAMED like a call option: never of the option's own type
+ODD_VALUES = {
+    "context": ["kitchen", 7, None, ["hall"]],
+    "blocking": ["later", 0, 1, None, 2.5],
+    "return_response": ["yes", 0, 1, None],
+}
 
 
 def names_of(ctx: str, slot: int, form: str) -> list[str]:
@@ -60,14 +89,25 @@ def names_of(ctx: str, slot: int, form: str) -> list[str]:
 def gen(rng: random.Random, tier: str) -> dict:
     cfg = gen_cfg(rng)
     cfg["drift"] = 0.0
+    # injected suspension inside State.get_service_params(), i.e. inside the start-up of a @service (new subsystem)
+    cfg["svc_params_delay_ms"] = rng.choice([0, 0, 2.0, 8.0])
     ctxs = CTXS[: rng.randint(1, 3)]
     ops = []
     for _ in range(rng.randint(4, 18 if tier == "thorough" else 13)):
         roll = rng.random()
         ctx = rng.choice(ctxs)
-        if roll < 0.5:
+        if roll < 0.45:
             ops.append({"kind": "define", "ctx": ctx, "slot": rng.randint(0, 1), "form": rng.choice(FORMS + ["default", "default"]),
                         "inflight": rng.random() < 0.3})
+        elif roll < 0.52:
+            # a definition that is still in progress (issued, not awaited) when something stops or supersedes it
+            then = rng.choice(RACE_THEN)
+            ops.append({"kind": "define_racing", "ctx": ctx, "slot": rng.randint(0, 1),
+                        "form": rng.choice(FORMS + ["default", "default"]), "then": then,
+                        "form2": rng.choice(FORMS + ["default", "default"]),
+                        "after_ms": rng.choice([0, 0.1, 0.4, 1, 3, 10, 25])})
+            if then == "unload":
+                ops.append({"kind": "setup"})
         elif roll < 0.65:
             ops.append({"kind": "delete", "ctx": ctx, "slot": rng.randint(0, 1), "inflight": rng.random() < 0.3})
         elif roll < 0.72:
@@ -94,7 +134,13 @@ def gen(rng: random.Random, tier: str) -> dict:
                 # no implicit blocking, so it is always given there
                 if form.startswith("entity") or "blocking" in flags:
                     flags["blocking"] = True
-            ops.append({"kind": "out", "ctx": ctx, "form": form, "data": data, "flags": flags})
+            odd = {}
+            if rng.random() < 0.4:
+                # ordinary data fields that share the name of a call option (only where the option itself is not given)
+                for key in rng.sample(sorted(ODD_VALUES), rng.choice([1, 1, 2, 3])):
+                    if key not in flags:
+                        odd[key] = rng.choice(ODD_VALUES[key])
+            ops.append({"kind": "out", "ctx": ctx, "form": form, "data": data, "flags": flags, "odd": odd})
     return {"cfg": cfg, "spec": {"ctxs": ctxs}, "ops": ops}
 
 
@@ -131,10 +177,13 @@ def _ctx_src(ctx: str, version: int) -> str:
         for form in FORMS:
             lines.append(f"    if cmd == 'define' and slot == {slot} and form == {form!r}:")
             lines += _def_block(ctx, slot, form, "        ")
+            lines.append(f"        sim.mark('life', 'defd', {ctx!r}, {slot}, gen)")
         lines.append(f"    if cmd == 'delete' and slot == {slot}:")
         lines.append(f"        del s{slot}")
-    lines += ["", "@service", f"def out_{ctx}(form=None, data=None, flags=None):",
+        lines.append(f"        sim.mark('life', 'del', {ctx!r}, {slot}, None)")
+    lines += ["", "@service", f"def out_{ctx}(form=None, data=None, flags=None, odd=None):",
               "    kw = dict(data)",
+              "    kw.update(odd or {})",
               "    if 'blocking' in flags:",
               "        kw['blocking'] = flags['blocking']",
               "    if 'return_response' in flags:",
@@ -179,7 +228,37 @@ def simplify(scn: dict):
             cand = copy.deepcopy(scn)
             cand["ops"][i]["inflight"] = False
             yield cand
-    for key, val in (("timer_late_ms", 0.0), ("cost_us", 50), ("exec_latency_ms", [0.0, 0.0]), ("set_order_salt", 0)):
+        if op["kind"] == "define_racing":
+            # an ordinary, awaited definition instead (followed by the plain form of what came after it)
+            cand = copy.deepcopy(scn)
+            plain = [{"kind": "define", "ctx": op["ctx"], "slot": op["slot"], "form": op["form"], "inflight": False}]
+            if op["then"] == "define":
+                plain.append({"kind": "define", "ctx": op["ctx"], "slot": op["slot"], "form": op["form2"], "inflight": False})
+            elif op["then"] == "unload":
+                plain.append({"kind": "unload"})
+            else:
+                plain.append({"kind": op["then"], "ctx": op["ctx"], "slot": op["slot"], "inflight": False})
+            cand["ops"][i:i + 1] = plain
+            yield cand
+            if op["after_ms"]:
+                cand = copy.deepcopy(scn)
+                cand["ops"][i]["after_ms"] = 0
+                yield cand
+            if op["form"] != "default":
+                cand = copy.deepcopy(scn)
+                cand["ops"][i]["form"] = "default"
+                yield cand
+        if op["kind"] == "out" and op.get("odd"):
+            cand = copy.deepcopy(scn)
+            cand["ops"][i]["odd"] = {}
+            yield cand
+            if len(op["odd"]) > 1:
+                for key in sorted(op["odd"]):
+                    cand = copy.deepcopy(scn)
+                    cand["ops"][i]["odd"] = {key: op["odd"][key]}
+                    yield cand
+    for key, val in (("timer_late_ms", 0.0), ("cost_us", 50), ("exec_latency_ms", [0.0, 0.0]), ("set_order_salt", 0),
+                     ("svc_params_delay_ms", 0)):
         if scn["cfg"].get(key) != val:
             cand = copy.deepcopy(scn)
             cand["cfg"][key] = val
@@ -395,6 +474,66 @@ def run(scn: dict) -> dict:
                     continue
                 await w.setup_entry()
                 entry_loaded = True
+            elif kind == "define_racing":
+                ctx, slot = op["ctx"], op["slot"]
+                key = (ctx, slot)
+                gens[key] = gens.get(key, 0) + 1
+                g1 = gens[key]
+                pos = len(w.marks)
+                had = {n: w.hass.services.has_service("pyscript", n) for n in names_of(ctx, slot, op["form"])}
+                await w.call_service("pyscript", f"life_{ctx}", {"cmd": "define", "slot": slot, "gen": g1, "form": op["form"]},
+                                     blocking=False)
+                if op["after_ms"]:
+                    await w.sleep(op["after_ms"] / 1000.0)
+
+                def life_marks():
+                    return [m["args"][1:] for m in w.marks[pos:] if m["args"][0] == "life" and m["args"][2:4] == [ctx, slot]]
+
+                then = op["then"]
+                if then == "delete" and key not in slots:
+                    then = "nothing"   # nothing to delete: the definition is just not waited for
+                if ["defd", ctx, slot, g1] not in life_marks():
+                    w.probe("definition_in_progress_when_stopped" if then in ("reload_ctx", "unload") else
+                            "definition_in_progress_when_redefined_or_deleted")
+                    if any(w.hass.services.has_service("pyscript", n) and not had[n] for n in had):
+                        w.probe("name_registered_by_definition_in_progress")
+                if then == "reload_ctx":
+                    version[ctx] += 1
+                    w.write_file(f"pyscript/{ctx}.py", _ctx_src(ctx, version[ctx]))
+                    await w.reload()
+                    # whatever the old script was still defining is not declared by a loaded context any more
+                    for k in [k for k in slots if k[0] == ctx]:
+                        model_remove(*k)
+                elif then == "unload":
+                    await w.unload_entry()
+                    for k in list(slots):
+                        model_remove(*k)
+                    entry_loaded = False
+                    kind = "unload"
+                else:
+                    g2 = None
+                    if then == "delete":
+                        await w.call_service("pyscript", f"life_{ctx}", {"cmd": "delete", "slot": slot})
+                    elif then == "define":
+                        gens[key] += 1
+                        g2 = gens[key]
+                        await w.call_service("pyscript", f"life_{ctx}", {"cmd": "define", "slot": slot, "gen": g2,
+                                                                         "form": op["form2"]})
+                    await w.settle(0.1)
+                    # the order in which the script finished the statements is the order in which they took effect
+                    done = life_marks()
+                    want = [["defd", ctx, slot, g1]]
+                    if then == "delete":
+                        want.append(["del", ctx, slot, None])
+                    elif then == "define":
+                        want.append(["defd", ctx, slot, g2])
+                    if sorted(done, key=repr) != sorted(want, key=repr):
+                        raise RuntimeError(f"{tag}: life_{ctx} reported {done}, issued {want}")
+                    for what, _c, _s, gen_no in done:
+                        if what == "del":
+                            model_remove(ctx, slot)
+                        else:
+                            model_define(ctx, slot, op["form"] if gen_no == g1 else op["form2"], gen_no)
             elif kind == "overlap":
                 import asyncio
 
@@ -440,12 +579,18 @@ def run(scn: dict) -> dict:
                 pos_r = len(records)
                 pos_m = len(w.marks)
                 n_ctx = len(made_ctx)
-                await w.call_service("pyscript", f"out_{op['ctx']}", {"form": op["form"], "data": op["data"], "flags": op["flags"]})
+                odd = op.get("odd") or {}
+                call_data = {"form": op["form"], "data": op["data"], "flags": op["flags"]}
+                if odd:
+                    call_data["odd"] = odd
+                    w.probe("outgoing_option_named_data_field")
+                await w.call_service("pyscript", f"out_{op['ctx']}", call_data)
                 await w.settle(0.1)
-                exp = dict(op["data"])
+                # exactly the given keyword parameters: a keyword that is not a call option (by name AND type) is data
+                exp = {**op["data"], **odd}
                 svc = "record"
                 if op["form"] == "entity_pos":
-                    exp = {"a": op["data"]["a"], "entity_id": "test.e1"}
+                    exp = {"a": op["data"]["a"], "entity_id": "test.e1", **odd}
                     svc = "record_one"
                     w.probe("outgoing_entity_method")
                 elif op["form"] == "entity_kw":
@@ -453,6 +598,8 @@ def run(scn: dict) -> dict:
                     w.probe("outgoing_entity_method")
                 new = records[pos_r:]
                 sig = {"form": op["form"], "flags": "+".join(sorted(op["flags"])) or "none"}
+                if odd:
+                    sig["option_named_field"] = "+".join(sorted(odd))
                 if len(new) != 1 or new[0]["data"] != exp or new[0]["service"] != svc:
                     viol("C12.outgoing_call", sig, f"{tag}: script call delivered {[(r['service'], r['data']) for r in new]}, expected "
                                                    f"one call of test.{svc} with {exp}")
@@ -476,6 +623,8 @@ def run(scn: dict) -> dict:
                          f"{tag}: the call of pyscript.{inflight['name']} made just before the op ran {len(got)} times")
             await check_all(tag)
 
+    if float(cfg.get("svc_params_delay_ms") or 0.0) > 0:
+        w.probe("slow_service_description_load")
     w.run(driver)
     if w.ha_exceptions:
         viol("C12.escaped_to_ha", {}, f"Home Assistant logged/handled: {w.ha_exceptions[:2]}")
